@@ -156,6 +156,15 @@ func (w *world) apply(o op, arg int) error {
 		if _, err := w.commit(st); err != nil {
 			return err
 		}
+	case kCommitReset:
+		w.revs[w.act] = nil
+		root, err := w.commit(st)
+		if err != nil {
+			return err
+		}
+		if err := st.Reset(root); err != nil {
+			return err
+		}
 	default:
 		applyMut(st, o, arg)
 	}
